@@ -25,7 +25,8 @@ wvars == <<cfg, files, gen, stat, clock>>
 pvars == <<ok, bad>>
 
 Files == {"a", "b", "x"}
-Matched == {f \in {"a", "b"} : files[f].c # 0}
+\* with cfg.reinc the sources list re-includes x after the exclude entry (entries are honoured in order)
+Matched == {f \in (IF cfg.reinc THEN {"a", "b", "x"} ELSE {"a", "b"}) : files[f].c # 0}
 Tasks == {"t", "u"}
 
 \* the fingerprint the property speaks of: names and contents (checksum), modification times (timestamp)
@@ -45,7 +46,7 @@ Class(o) == ":newer-source=" \o Newer(o) \o ":generates=" \o (IF ~cfg.gen THEN "
             \o (IF cfg.collide THEN ":colliding-names" ELSE "")
 
 ReadOnly == {"dry", "status", "list", "listjson", "summary", "drydir"}
-RunModes == {"run", "other", "fail1", "fail2", "prompt", "kill1", "kill2"}
+RunModes == {"run", "other", "fail1", "fail2", "failpre", "prompt", "kill1", "kill2"}
 
 WorldInit ==
   /\ files = [f \in Files |-> [c |-> IF f = "b" THEN 0 ELSE 1, m |-> 1]]
